@@ -1,4 +1,4 @@
 #!/bin/bash
 # tools/resync_seeded.sh PID... - re-copies the deliverables of finished seeding agents (overwrites earlier partial imports)
 cd "$(dirname "$0")/.."
-for pid in "$@"; do for d in /tmp/seed-out5/$pid-*; do n=$(basename $d); if [ -f $d/patch.diff ] && [ -f $d/meta.json ] && [ -f $d/demo.py ]; then mkdir -p seeded/$n; for f in patch.diff meta.json demo.py; do cmp -s $d/$f seeded/$n/$f || { [ $f = meta.json ] && [ -f seeded/$n/result-quick.json ] && continue; cp $d/$f seeded/$n/$f; echo "updated $n/$f"; }; done; fi; done; done
+for pid in "$@"; do for d in /tmp/seed-out6/$pid-*; do n=$(basename $d); if [ -f $d/patch.diff ] && [ -f $d/meta.json ] && [ -f $d/demo.py ]; then mkdir -p seeded/$n; for f in patch.diff meta.json demo.py; do cmp -s $d/$f seeded/$n/$f || { [ $f = meta.json ] && [ -f seeded/$n/result-quick.json ] && continue; cp $d/$f seeded/$n/$f; echo "updated $n/$f"; }; done; fi; done; done
